@@ -1,5 +1,6 @@
 import SlotVerif.Model.Match
 import SlotVerif.Proofs.EMatch
+import SlotVerif.Proofs.MultiMatch
 /-!
 # C05 — Reported matches denote terms that are really in the e-graph
 
@@ -9,7 +10,10 @@ compared with the model's, as sets modulo the names of fresh slots and the symme
 `ematch`).  Proved about the model, for every dumped state, every well-formed pattern and every start state
 (`Proofs/EMatch.lean`): `ematch_binds_all` — **every returned substitution binds every pattern variable**;
 `matcher_state_invariant` — every state the matcher reaches extends the one it started from and **its map e-graph slot ↦
-pattern slot stays a well-formed injection while descending**.  `multi_ematch` is not modelled.  Also proved: the
+pattern slot stays a well-formed injection while descending**.  The multi-pattern matcher `multi_ematch` (slot union-find
+with disequality constraints, `src/rewrite/multipat.rs`) is modelled as well (`Model/MultiMatch.lean`, query `mmatch`, same
+comparison); `multi_ematch_binds_all`: every substitution it returns binds the variable and all child variables of every
+equation (`Proofs/MultiMatch.lean`).  Also proved: the
 **match checker** — if
 `checkMatch` accepts a substitution on a dumped state, then every pattern variable is bound and the
 instantiated pattern looks up (read-only, in the snapshot model) to a class invocation; the check
@@ -113,5 +117,15 @@ def demo : Snap :=
 def demoPat : MPat := .node ⟨13, [.app ⟨0, []⟩]⟩ [.pvar "x"]
 example : EMatch.wfPat demoPat := ⟨rfl, trivial, trivial⟩
 #guard ((EMatch.ematchAll demo demoPat 100).1.map fun σ => σ.map fun b => (b.1, b.2.id)) == [[("x", 0)]]
+
+/-- **every substitution `multi_ematch` returns binds every variable of the multi-pattern** (`?v` and all `?ci` of every
+equation `?v == node(?c1 .. ?ck)`), on every state, for equations whose node has a child position for each `?ci` -/
+theorem multi_ematch_binds_all (s : Snap) (pats : List (String × Node × List String))
+    (hwf : ∀ pat ∈ pats, pat.2.2.length ≤ (Node.appOcc pat.2.1).length) (k : Nat) :
+    ∀ σ ∈ (MultiMatch.multiEmatch s pats k).1, ∀ pat ∈ pats,
+      pat.1 ∈ σ.map (·.1) ∧ ∀ c ∈ pat.2.2, c ∈ σ.map (·.1) :=
+  MultiMatch.multiEmatch_binds s pats hwf k
+
+#guard ((MultiMatch.multiEmatch demo [("o", ⟨13, [.app ⟨0, []⟩]⟩, ["x"])] 100).1.map fun σ => σ.map fun b => (b.1, b.2.id)) == [[("o", 1), ("x", 0)]]
 
 end SV.C05
